@@ -77,11 +77,11 @@ theorem c07_push {k : Kind} {n c : Nat} {w : St α} {xs : List α} (hk : k ≠ .
     push k tsz w v = .ok (next n c w xs v) ∧ Inv n c (next n c w xs v) (xs ++ [v]) := by
   refine ⟨?_, next_inv w xs v h⟩
   cases k with
-  | arr => exact gen_push_arr w xs v h
+  | arr => exact gen_push_arr tsz w xs v h
   | vec => exact absurd rfl hk
   | uarr => exact gen_push_uarr tsz w xs v h
-  | uvec => exact gen_push_uvec w xs v h (h2 rfl)
-  | vecFixed => exact gen_push_vecFixed w xs v h
+  | uvec => exact gen_push_uvec tsz w xs v h (h2 rfl)
+  | vecFixed => exact gen_push_vecFixed tsz w xs v h
 
 /-- any number of pushes -/
 theorem c07_run {k : Kind} {n c : Nat} (hk : k ≠ .vec) (tsz : Nat) (h2 : k = .uvec → 2 * n ≤ c) (ys : List α) :
@@ -288,7 +288,7 @@ theorem c07_vec_partial {size c : Nat} (tsz : Nat) (h : Admissible .vec size c) 
       intro w pre hi ht hl
       simp only [List.length_cons] at hl
       have hroom : w.tail < size * c := by omega
-      have he := gen_push_vec_room w pre y hi hroom
+      have he := gen_push_vec_room tsz w pre y hi hroom
       have hi' := next_inv w pre y hi
       have ht' : (next size (size * c) w pre y).tail = (pre ++ [y]).length := by
         have hroom' := hroom
@@ -296,7 +296,7 @@ theorem c07_vec_partial {size c : Nat} (tsz : Nat) (h : Admissible .vec size c) 
         simp [next, appended, ht, hroom']
       obtain ⟨w', hr, hw⟩ := ih _ _ hi' ht' (by simp; omega)
       refine ⟨w', ?_, by simpa using hw⟩
-      simp only [run, Gen.Window.push, he, hr]
+      simp only [run, he, hr]
   obtain ⟨hn, hi⟩ := c07_new h d
   simp only [cells] at hn hi
   obtain ⟨w, hr, hw⟩ := key xs _ _ hi (by simp [init]) (by simpa using hx)
